@@ -255,7 +255,7 @@ def hfe_side_bytes(cells, encoding, ops=None):
     return bytes(out)
 
 
-def build_hfe(tracks_cells, nsides, encoding, version=1, v3ops=None, bitrate=250):
+def build_hfe(tracks_cells, nsides, encoding, version=1, v3ops=None, bitrate=250, pad_last=True):
     """tracks_cells[t][side] = list of cells.  Returns the file bytes."""
     ntracks = len(tracks_cells)
     hdr = bytearray(b"\xFF" * 512)
@@ -302,14 +302,18 @@ def build_hfe(tracks_cells, nsides, encoding, version=1, v3ops=None, bitrate=250
                 tdata += chunk
         struct.pack_into("<HH", lut, 4 * t, block, 2 * ln)
         padded = (len(tdata) + 511) // 512 * 512
-        tdata += bytes(padded - len(tdata))
+        if pad_last or t + 1 < ntracks:
+            tdata += bytes(padded - len(tdata))
+        else:
+            # the file ends with the last byte the LUT declares for the last track (no padding to 512)
+            tdata = tdata[:2 * ln] if 2 * ln <= len(tdata) else tdata
         body += tdata
         block += padded // 512
     return bytes(hdr) + bytes(lut) + bytes(body)
 
 
 def hfe_from_sides(sides, ntracks, spt, encoding, version=1, layout=None, order_fn=None, v3ops=None,
-                   track_bytes=None, head_id_fn=None, quirks_fn=None):
+                   track_bytes=None, head_id_fn=None, quirks_fn=None, pad_last=True):
     """sides: list of surface images (bytes).  Encodes every track."""
     tb = track_bytes or (3125 if encoding == "FM" else 6250)
     enc = fm_track if encoding == "FM" else mfm_track
@@ -323,7 +327,7 @@ def hfe_from_sides(sides, ntracks, spt, encoding, version=1, layout=None, order_
             per.append(enc(t, sd, secs, order=order, layout=layout, track_bytes=tb, head_id=hid,
                            quirks=quirks_fn(t, sd) if quirks_fn else None))
         tracks.append(per)
-    return build_hfe(tracks, len(sides), encoding, version=version, v3ops=v3ops)
+    return build_hfe(tracks, len(sides), encoding, version=version, v3ops=v3ops, pad_last=pad_last)
 
 
 # ---------------------------------------------------------------- HxC MFM
